@@ -72,6 +72,8 @@ theorem prepN_good {files : Files} {J : PJ} {inl : List Name} {cur : Name}
     cases he; exact ⟨fun t ht => by simp [targetsL, targetsN] at ht, hc⟩
   | .call m, c, ns', c', _, hc, he => by
     cases he; exact ⟨fun t ht => by simp [targetsL, targetsN] at ht, hc⟩
+  | .select, c, ns', c', _, hc, he => by
+    cases he; exact ⟨fun t ht => by simp [targetsL, targetsN] at ht, hc⟩
   | .elem tg b, c, ns', c', hs, hc, he => by
     rw [prepN_elem] at he
     exact wrap_good (mk := .elem tg) (fun x => by simp [targetsN])
